@@ -15,7 +15,9 @@ RULE = ("a case is a namespace tree on disk (1-4 root directories, nesting depth
         "both ways; every call is repeated with 2-3 equivalent spellings of the directory arguments (relative, '..', '.', through a "
         "symbolic link, str / Path, permuted, duplicated; for read_files also directories and target files spelled differently: root "
         "through a symbolic link with real target paths and the converse; a root that holds only dependencies given as a bare "
-        "relative name with its parent as working directory) and the whole case under 4 values of PYTHONHASHSEED each with its own seeded "
+        "relative name with its parent as working directory; the path lists as generator / iterator / map / tuple / single "
+        "value / None); calls are repeated within one process with the other allow flag or another lookup set (histories), each "
+        "compared with the model on its own; and the whole case under 4 values of PYTHONHASHSEED each with its own seeded "
         "shuffle of Path.rglob results; non-trivial = some call returns >= 2 types or is rejected because of the directory set; "
         "distinct = by hash of the canonical case")
 THEOREMS_NOTE = ("C10_complete / C10_files / C10_files_api fix the returned sets (direct = requested, transitive = rest of the closure, disjoint, "
@@ -39,6 +41,8 @@ LEVEL_NOTE = ("Trusted: Coq kernel + vm_compute; pathlib / OS behaviour is not m
 TECHNIQUE = "Coq proof (insertion sort, permutation invariance, loop invariants of the reader) + vm_compute correspondence on materialised namespaces"
 
 SEEDS = [0, 1, 7, 12345]
+# shapes of the path-list arguments (lookup directories, roots, target files): list, one-shot iterators, tuple, single value, None
+SHAPES = ["list", "list", "gen", "iter", "tuple", "map", "single", "none"]
 
 
 # ----------------------------------------------------------------------------------------------------------------
@@ -49,7 +53,7 @@ def gen_variants(rng, n):
     out = []
     for _ in range(n):
         out.append({"how": rng.choice(["rel", "dotdot", "dot", "link", "abs"]), "perm": rng.randrange(1 << 30), "dup": rng.random() < 0.4,
-                    "as_path": rng.random() < 0.5})
+                    "as_path": rng.random() < 0.5, "shape": rng.choice(SHAPES)})
     return out
 
 
@@ -109,8 +113,28 @@ def gen_case(rng, tier):
         f = defs[t]
         tr = B.natural_root(roots, f)
         qs.append({"k": "files", "targets": [t], "roots": [list(tr)], "lookups": [list(r) for r in roots if r != tr]})
+    # histories: the same call again in the same process with another allow flag / another lookup set, each compared with the
+    # model on its own (nothing may be remembered between calls)
+    hist = []
+    for q in qs:
+        hist.append(q)
+        if q["k"] == "ns" and (flavor == "dirs" or rng.random() < 0.35):
+            hist.append(dict(q, allow=not q["allow"]))
+            if rng.random() < 0.3:
+                hist.append(dict(q))
+        elif q["k"] == "files" and rng.random() < 0.25:
+            hist.append(dict(q, lookups=[list(x) for x in q["lookups"]][:-1] if q["lookups"] else [list(r) for r in roots[:1]]))
+    if flavor == "dirs":
+        for lk in ([twin_root], [case_root], [twin_root, other]):
+            first = rng.random() < 0.7
+            hist.append({"k": "ns", "root": list(r0), "lookups": [list(x) for x in lk], "allow": first})
+            hist.append({"k": "ns", "root": list(r0), "lookups": [list(x) for x in lk], "allow": not first})
+    qs = hist
     for q in qs:
         q["variants"] = gen_variants(rng, rng.choice([2, 2, 3]))
+        # the base call itself sometimes in another argument shape than a list: the model does not know about shapes
+        if rng.random() < 0.5:
+            q["variants"].append({"how": "abs", "perm": 0, "dup": False, "noperm": True, "as_path": rng.random() < 0.5, "shape": rng.choice(SHAPES[2:])})
         if q["k"] == "files":
             # directories and target files spelled differently: root through a symbolic link with the targets by their real
             # paths, and the converse; '..' against real
@@ -152,9 +176,19 @@ def corpus():
           {"k": "ns", "root": ns, "lookups": [["a"]], "allow": True}, {"k": "ns", "root": ns, "lookups": [ns, ns], "allow": False}]
     for q in qs:
         q["variants"] = [{"how": h, "perm": 3, "dup": True, "as_path": h == "link"} for h in ("rel", "dotdot", "link")]
+        q["variants"] += [{"how": "abs", "perm": 0, "dup": False, "noperm": True, "as_path": sh in ("iter", "single"), "shape": sh} for sh in SHAPES[2:]]
         if q["k"] == "files":
             q["variants"] += [{"how": "link", "how_targets": "abs", "perm": 1, "dup": False, "as_path": True},
                               {"how": "abs", "how_targets": "link", "perm": 1, "dup": False, "as_path": False}]
+    # history: the same directories first with name collisions allowed, then disallowed (and the other way round)
+    hn, hd, hc = ["a", "ns"], ["d", "ns"], ["e", "NS"]
+    fh = [B.mkfile(0, hn, "A", 1, 0, [["plain", 8]]), B.mkfile(1, hd + ["q"], "Own", 1, 0, []), B.mkfile(2, hc, "Own", 1, 0, [])]
+    qh = []
+    for lks in ([hd], [hc], [hd, hc]):
+        for seq in ((True, False, True), (False, True)):
+            for al in seq:
+                qh.append({"k": "ns", "root": hn, "lookups": lks, "allow": al, "variants": []})
+    hist_case = {"files": fh, "queries": qh, "flavor": "corpus-history", "dirs": [hn, hd, hc]}
     # dependencies only in a root that is given as a bare relative name; directories named like definitions
     an, pl = ["t", "animals"], ["t", "plants"]
     fb = [B.mkfile(0, an, "Cat", 1, 0, [["ref", "plants.Grass", 1, 0, 0], ["ref", "Paw", 1, 0, 0]]), B.mkfile(1, an, "Paw", 1, 0, [["plain", 8]]),
@@ -167,7 +201,7 @@ def corpus():
     extra = {"files": fb, "queries": qb, "flavor": "corpus-bare", "dirs": [an, pl, an + ["Backup.1.0.uavcan"], pl + ["s", "Telemetry.0.9.dsdl"], pl + ["Seed.1.1.dsdl"]]}
     # F5b: two files, one name and version, equal texts
     tw = [B.mkfile(0, ns, "A", 1, 0, [["plain", 8]]), B.mkfile(1, ns, "A", 1, 0, [["plain", 8]], port=7000), B.mkfile(2, ns, "B", 1, 0, [])]
-    return [extra, {"files": fs, "queries": qs, "flavor": "corpus", "dirs": [ns, lk]},
+    return [extra, hist_case, {"files": fs, "queries": qs, "flavor": "corpus", "dirs": [ns, lk]},
             {"files": tw, "queries": [{"k": "ns", "root": ns, "lookups": [], "allow": True, "variants": []}], "flavor": "corpus-twins", "dirs": [ns]}]
 
 
@@ -266,7 +300,7 @@ def run_all(cases, scratch, run_impl_parallel):
     out = copy.deepcopy(runs[0])
     for i, o in enumerate(out):
         for s, r in zip(SEEDS[1:], runs[1:]):
-            if r[i]["q"] != o["q"] and not o.get("pred_fail"):
+            if r[i].get("q") != o.get("q") and not o.get("pred_fail"):
                 o["pred_fail"] = "hashseed: PYTHONHASHSEED / enumeration order %d gives a different result than %d" % (s, SEEDS[0])
             if r[i].get("pred_fail") and not o.get("pred_fail"):
                 o["pred_fail"] = r[i]["pred_fail"]
@@ -319,6 +353,8 @@ def describe(case, obs):
         else:
             keys.append("%s:err:%s" % (q["k"], o["err"]))
         for v in q.get("variants", []):
+            if v.get("shape", "list") != "list":
+                keys.append("shape:" + v["shape"])
             keys.append("spelling:" + ("bare-root" if v.get("bare") else v["how"]) + ("/targets:" + v["how_targets"] if v.get("how_targets") else ""))
     if obs.get("pred_fail"):
         keys.append("pred_fail:" + obs["pred_fail"].split(":")[1].strip()[:12])
